@@ -223,6 +223,16 @@ def convBlockChunkT (add : Nat → Nat → Option Nat) (native : Color) (target 
   let w2 ← convBlockRowsT native target height bufStride rowPitch csz obpp bufChunk outChunk  -- :881
   pure (w1 ++ w2)
 
+/-- the main loop of `process_blocks` (:850–885) on what is left after the width offset -/
+def convBlocksMainT (add : Nat → Nat → Option Nat) (native : Color) (target : Unc.Channels) (p : BlkFn) (bpb : Nat)
+    (al : Sl → Bool) (blockBytes blockWidth nbpp obpp height bufW rowPitch : Nat) (r : PRange) (enc out : Sl)
+    (width : Nat) : Option (List Ev) := do
+  let rm ← modT bufW blockWidth                                          -- :851 `round_down_to_multiple`
+  let pref ← subU bufW rm
+  dbgP (pref ≠ 0)                                                        -- :852 `step_by(0)` panics
+  forT (convBlockChunkT add native target p bpb al blockBytes blockWidth nbpp obpp height pref width
+    rowPitch r enc out) (Addr.stepStarts width pref)
+
 /-- `process_blocks` with the addition of :853 as a parameter -/
 def convBlocksWithT (add : Nat → Nat → Option Nat) (native : Color) (target : Unc.Channels) (p : BlkFn) (bpb : Nat)
     (al : Sl → Bool) (blockBytes blockWidth : Nat) (enc out : Sl) (rowPitch : Nat) (r : PRange) : Option (List Ev) :=
@@ -236,27 +246,23 @@ def convBlocksWithT (add : Nat → Nat → Option Nat) (native : Color) (target 
     let bufW := q % U32B                                                 --   `as u32`
     dbgP (bufW ≥ blockWidth)                                             -- :809
     let obpp ← (Color.mk target native.psz).bppT                         -- :810
-    let (enc, out, width, e0) ← if r.wo ≠ 0 then (do                     -- :817
-        let a ← subU blockWidth r.wo                                     -- :818 (`u32`)
-        let ow := min a r.width
-        let bufStride ← ckU (ow * nbpp)                                  -- :820
-        let e ← ckU (bufStride * height)                                 -- :821
-        let buf ← tmpBuffer.upto e
-        let enc0 ← enc.upto blockBytes                                   -- :825
-        let w1 ← p.runT bpb nbpp al enc0 buf bufStride ⟨ow, r.wo, r.rs, r.re⟩          -- :824
-        let w2 ← convBlockRowsT native target height bufStride rowPitch ow obpp buf out   -- :836
-        let width' ← subU r.width ow                                     -- :845
-        let enc' ← enc.drop blockBytes                                   -- :846
-        let g ← ckU (ow * obpp)                                          -- :847
-        let out' ← out.drop g
-        pure (enc', out', width', w1 ++ w2))
-      else pure (enc, out, r.width, [])
-    let rm ← modT bufW blockWidth                                        -- :851 `round_down_to_multiple`
-    let pref ← subU bufW rm
-    dbgP (pref ≠ 0)                                                      -- :852 `step_by(0)` panics
-    let e1 ← forT (convBlockChunkT add native target p bpb al blockBytes blockWidth nbpp obpp height pref width
-      rowPitch r enc out) (Addr.stepStarts width pref)
-    pure (e0 ++ e1)
+    if r.wo ≠ 0 then do                                                  -- :817
+      let a ← subU blockWidth r.wo                                       -- :818 (`u32`)
+      let ow := min a r.width
+      let bufStride ← ckU (ow * nbpp)                                    -- :820
+      let e ← ckU (bufStride * height)                                   -- :821
+      let buf ← tmpBuffer.upto e
+      let enc0 ← enc.upto blockBytes                                     -- :825
+      let w1 ← p.runT bpb nbpp al enc0 buf bufStride ⟨ow, r.wo, r.rs, r.re⟩            -- :824
+      let w2 ← convBlockRowsT native target height bufStride rowPitch ow obpp buf out   -- :836
+      let width' ← subU r.width ow                                       -- :845
+      let enc' ← enc.drop blockBytes                                     -- :846
+      let g ← ckU (ow * obpp)                                            -- :847
+      let out' ← out.drop g
+      let e1 ← convBlocksMainT add native target p bpb al blockBytes blockWidth nbpp obpp height bufW rowPitch r
+        enc' out' width'
+      pure (w1 ++ w2 ++ e1)
+    else convBlocksMainT add native target p bpb al blockBytes blockWidth nbpp obpp height bufW rowPitch r enc out r.width
 
 /-- **`ChannelConversionBuffer::process_blocks` as it is** (after repair F17, /repo f7a7af9):
 `chunk_start.saturating_add(preferred_chunk_size).min(range.width)` -/
